@@ -121,13 +121,17 @@ def run(model: RepoModel, rep, tier: str):
                                     t = const_str(cmp_.comparators[0])
                                     if types and t not in types and n.lineno < c.lineno:
                                         dead = t
-                if dead:
+                esc = None if dead else _escaped_composition(f, c, arg)
+                if esc is not None and esc[0]:
+                    rep.holds("C08.R1", key, rel, c.lineno, esc[1])
+                elif dead:
                     rep.holds("C08.R1", key, rel, c.lineno,
                               f"unreachable on this grammar: the function returns unless node.type == \"{dead}\", a node type the frontend's "
                               f"handler maps never dispatch on (the composed evaluation is dead code)")
                 else:
+                    why = f" [{esc[1]}]" if esc is not None else ""
                     rep.violation("C08.R1", key, rel, c.lineno,
-                                  f"{f.ref} evaluates `{norm(arg)}`, a string assembled from text of the analysed program "
+                                  f"{f.ref} evaluates `{norm(arg)}`{why}, a string assembled from text of the analysed program "
                                   f"({', '.join(parts[:4])}): operand and operator text decide what lian executes -- `9 ** 99999999 ** 2`-style "
                                   f"constants make the run time unbounded, and quote characters in a string constant change the expression")
     rep.analysed["evaluator call sites"] = n_sites
@@ -244,6 +248,122 @@ def run(model: RepoModel, rep, tier: str):
                                   f"contains call syntax terminates the whole analysis instead of being treated as data")
     if n_sites < 2:
         raise AnalysisError(f"only {n_sites} strict_eval call site(s) found (common_eval and the state-level folder expected)")
+
+
+
+def _string_type_atom(t, fnode, depth=0) -> bool:
+    """t (polarity stripped) tests only whether a value is of the string type: a comparison with ...STRING, or a flag
+    that is only ever assigned bool constants and is set True under such a test."""
+    while isinstance(t, ast.UnaryOp) and isinstance(t.op, ast.Not):
+        t = t.operand
+    if isinstance(t, ast.Compare) and len(t.ops) == 1 and isinstance(t.ops[0], (ast.Eq, ast.NotEq, ast.Is, ast.IsNot)):
+        return any((dotted(x) or "").endswith(".STRING") or (dotted(x) or "") == "STRING" for x in (t.left, t.comparators[0]))
+    if isinstance(t, ast.BoolOp):
+        return all(_string_type_atom(v, fnode, depth) for v in t.values)
+    if isinstance(t, ast.Name) and depth < 3:
+        asg = [(n, i) for i in walk_no_nested(fnode) if isinstance(i, ast.If) for n in ast.walk(i)
+               if isinstance(n, ast.Assign) and any(isinstance(x, ast.Name) and x.id == t.id for x in n.targets)]
+        alla = [n for n in walk_no_nested(fnode) if isinstance(n, ast.Assign) and any(isinstance(x, ast.Name) and x.id == t.id for x in n.targets)]
+        if not alla or not all(isinstance(n.value, ast.Constant) and isinstance(n.value.value, bool) for n in alla):
+            return False
+        trues = [n for n in alla if n.value.value is True]
+        if not trues:
+            return False
+        # every True-assignment sits directly under a string-type test
+        for n in trues:
+            holders = [i for (m, i) in asg if m is n and any(b is n for b in i.body)]
+            if not holders or not all(_string_type_atom(i.test, fnode, depth + 1) for i in holders):
+                return False
+        return True
+    return False
+
+
+def _escaped_composition(f: Func, c: ast.Call, arg):
+    """A composed evaluation is acceptable when every operand that can be text of a string constant reaches the evaluator through
+    repr() -- the quoting function of the evaluated language, so every character of the constant stays data -- and only operands
+    known not to be string-typed are interpolated raw.  Decided on the CFG: for each interpolated variable, every definition that
+    reaches the call is (a) `repr(...)`, or (b) raw but only on paths where a string-type test of that operand is false."""
+    if not isinstance(arg, ast.JoinedStr):
+        return None
+    fv = [v.value for v in arg.values if isinstance(v, ast.FormattedValue)]
+    names = [v.id for v in fv if isinstance(v, ast.Name)]
+    if len(names) != len(fv) or not names:
+        return (False, "an interpolated part is not a plain variable")
+    cfg = cfg_of(f.node)
+    try:
+        e_node = cfg.node_of(c) if hasattr(cfg, "node_of") else None
+    except Exception:
+        e_node = None
+    if e_node is None:
+        for n in cfg.g.nodes:
+            if any(x is c for x in cfg.calls_at(n)):
+                e_node = n
+                break
+    if e_node is None:
+        return None
+    ifs = [i for i in walk_no_nested(f.node) if isinstance(i, ast.If)]
+
+    def is_repr(v):
+        return isinstance(v, ast.Call) and call_name(v) == "repr" and len(v.args) == 1
+
+    escaped_any = False
+    for name in dict.fromkeys(names):
+        dnodes = {}
+        for n in cfg.g.nodes:
+            st = cfg.stmt.get(n)
+            if isinstance(st, ast.Assign) and cfg.kind.get(n) not in ("iter",) and any(isinstance(t, ast.Name) and t.id == name for t in st.targets):
+                dnodes[n] = st
+        if not dnodes:
+            # a parameter or attribute text: operator tokens (stmt.operator) are accepted only when never string-typed data
+            continue
+        reaching = [n for n in dnodes if cfg.path_avoiding(n, e_node, set(dnodes) - {n}) is not None]
+        reprs = [n for n in reaching if is_repr(dnodes[n].value)]
+        if not reprs:
+            # a variable that never carries escaped text: accepted only if no definition derives from a value field
+            srcs = {x.id for n in reaching for x in ast.walk(dnodes[n].value) if isinstance(x, ast.Name)} | \
+                   {norm(x) for n in reaching for x in ast.walk(dnodes[n].value) if isinstance(x, ast.Attribute)}
+            if any(s_.endswith("operator") for s_ in srcs) and all(s_.endswith("operator") or s_ in ("stmt",) for s_ in srcs):
+                continue   # the operator token of the statement
+            return (False, f"`{name}` reaches the evaluator without passing through repr()")
+        escaped_any = True
+        for n in reaching:
+            if n in reprs:
+                continue
+            st = dnodes[n]
+            ok = False
+            # (i) the raw definition is the else/then arm of an If whose whole test is a string-type test, the repr definition in the other arm
+            for i in ifs:
+                in_body = any(x is st for b in i.body for x in ast.walk(b))
+                in_else = any(x is st for b in i.orelse for x in ast.walk(b))
+                if not (in_body or in_else):
+                    continue
+                other = i.orelse if in_body else i.body
+                if _string_type_atom(i.test, f.node) and any(is_repr(a.value) for b in other for a in ast.walk(b)
+                                                              if isinstance(a, ast.Assign) and any(isinstance(t, ast.Name) and t.id == name for t in a.targets)):
+                    ok = True
+            # (ii) a later conditional re-definition `if <string-type test>: name = repr(...)` that every path from the raw definition to the call meets
+            if not ok:
+                guards = []
+                for i in ifs:
+                    if _string_type_atom(i.test, f.node) and not i.orelse and i.lineno > st.lineno:
+                        for a in i.body:
+                            if isinstance(a, ast.Assign) and is_repr(a.value) and any(isinstance(t, ast.Name) and t.id == name for t in a.targets):
+                                guards.append(i)
+                gnodes = set()
+                for i in guards:
+                    try:
+                        gnodes.add(cfg.node(i))
+                    except Exception:
+                        pass
+                if gnodes and cfg.path_avoiding(n, e_node, gnodes) is None:
+                    ok = True
+            if not ok:
+                return (False, f"`{name} = {norm(st.value)}` (line {st.lineno}) reaches the evaluator raw on a path where the operand can be string-typed")
+    if not escaped_any:
+        return (False, "no operand is escaped")
+    return (True, "composed evaluation, but every operand that can be the text of a string constant is quoted by repr() on every path to "
+                  "the evaluator (raw interpolation only where a string-type test of the operand is false); the operator is the statement's "
+                  "operator token; size of the evaluation is decided by C13.R7")
 
 
 def check_regex_escape(model: RepoModel, rep, RID: str, only=None):
@@ -668,6 +788,12 @@ MUTANTS = [
      _t("        for each_parent_stmt_id in parent_stmt_ids:\n            if each_parent_stmt_id in frame.stmt_id_to_status:\n                in_state_bits |= frame.stmt_id_to_status[each_parent_stmt_id].out_state_bits\n",
         "        for each_parent_stmt_id in parent_stmt_ids:\n            if each_parent_stmt_id in frame.stmt_id_to_status:\n                in_state_bits |= frame.stmt_id_to_status[each_parent_stmt_id].out_state_bits\n                break\n"),
      "C08.R6"),
+    ("fold-quotes-by-hand", "core/stmt_states.py",
+     _t("            tmp_value1 = repr(str(tmp_value1))\n            tmp_value2 = repr(str(tmp_value2))", "            tmp_value1 = f'\"{tmp_value1}\"'\n            tmp_value2 = f'\"{tmp_value2}\"'"),
+     "compute_two_states"),
+    ("fold-boolean-operands-raw", "core/stmt_states.py",
+     _t("            if data_type1 == LIAN_INTERNAL.STRING:\n                tmp_value1 = repr(str(value1))\n", ""),
+     "compute_two_states"),
     ("python-folder-made-live", "lang/python_parser.py", _t('if not self.is_constant_literal(node) and node.type != "binary_expression":', 'if not self.is_constant_literal(node) and node.type != "binary_operator":'),
      "python_parser.py::Parser.evaluate_literal_binary_expression"),
     ("number-literal-composed", "lang/go_parser.py", _t("        value = self.common_eval(value)", "        value = self.common_eval(value + \" + 0\")"), "go_parser.py"),
@@ -685,7 +811,7 @@ MUTANTS = [
      _t("                defined_symbol_states.update(receiver_state.tangping_elements)\n", "                defined_symbol_states.update(receiver_state.tangping_elements)\n                break\n"),
      "forin_stmt_state"),
     ("rejection-escapes", "core/stmt_states.py",
-     _t('            value = util.strict_eval(f"{tmp_value1} {operator} {tmp_value2}")\n        except:', '            value = util.strict_eval(f"{tmp_value1} {operator} {tmp_value2}")\n        except Exception:'),
+     _t('                data_type = LIAN_INTERNAL.STRING\n        except:\n            # value = ""', '                data_type = LIAN_INTERNAL.STRING\n        except Exception:\n            # value = ""'),
      "compute_two_states::strict_eval rejection is contained"),
     ("rejection-escapes-frontend", "lang/common_parser.py",
      _t("            return str(util.strict_eval(input_string))\n        except:", "            return str(util.strict_eval(input_string))\n        except (SyntaxError, ValueError, NameError, TypeError):"),
